@@ -1726,7 +1726,6 @@ def run_c15(t):
         if [int(i) for i in ti2] != ti:
             return False, {"why": "test_indices are not those of train_test_split with the given seed"}
         tr = [int(i) for i in tr]
-    first_nn_metric = None
     for (name, orig), b in zip(originals, t["bandits"]):
         cf = is_context_free(b)
         mab = orig
@@ -1734,26 +1733,55 @@ def run_c15(t):
         mab.fit(ds[tr], rs[tr], **kw)
         preds = []; exps = []
         bs = t["batch_size"]
+        # expectations are compared for policies whose expectations are deterministic
+        k = b["lp"][0]
+        det = (k == "ucb") or (k == "linucb") or (k in ("greedy", "lingreedy") and b["lp"][1] == 0.0)
+        def as_list(e):
+            return e if isinstance(e, list) else [e]
         if bs == 0:
             if cf:
                 preds = [mab.predict() for _ in ti]
+                if det: exps = [mab.predict_expectations()]
             else:
                 p = mab.predict(cx[ti]); preds = p if isinstance(p, list) else [p]
+                if det: exps = as_list(mab.predict_expectations(cx[ti]))
         else:
             for s in range(0, len(ti), bs):
                 idx = ti[s:s + bs]
                 if cf:
                     preds += [mab.predict() for _ in idx]
+                    if det: exps += [mab.predict_expectations()]
                     mab.partial_fit(ds[idx], rs[idx])
                 else:
                     p = mab.predict(cx[idx]); preds += p if isinstance(p, list) else [p]
-                    mab.predict_expectations(cx[idx])
+                    e = mab.predict_expectations(cx[idx])
+                    if det: exps += as_list(e)
                     mab.partial_fit(ds[idx], rs[idx], cx[idx])
         got = list(sim.bandit_to_predictions[name])
         if got != preds:
             k = next(i for i, (a, c) in enumerate(zip(got, preds)) if a != c) if len(got) == len(preds) else -1
             return False, {"why": "predictions reported for bandit %s differ from the public-API replay (first difference at test row %d)" % (name, k),
                            "bandit": b, "simulator": str(got[:12]), "replay": str(preds[:12]), "batch_size": bs}
+        if det:
+            ge = sim.bandit_to_expectations[name]
+            ge = as_list(ge)
+            if len(ge) != len(exps):
+                return False, {"why": "bandit %s: %d expectation records reported, the public-API replay has %d" % (name, len(ge), len(exps)), "bandit": b, "batch_size": bs}
+            lin = b["lp"][0] in gen.LIN_KINDS
+            for j, (g1, e1) in enumerate(zip(ge, exps)):
+                if not g1:
+                    # the simulator classes report {} for an empty neighbourhood; the library reports NaN for every arm
+                    if all(v != v for v in e1.values()):
+                        continue
+                    return False, {"why": "bandit %s, record %d: the simulator reports no expectations, the public API reports %r" % (name, j, e1), "bandit": b}
+                if list(g1.keys()) != list(e1.keys()):
+                    return False, {"why": "bandit %s, record %d: expectation keys %r differ from the public API's %r" % (name, j, list(g1.keys()), list(e1.keys())), "bandit": b}
+                for a in e1:
+                    x, y = float(g1[a]), float(e1[a])
+                    same = (x == y) or (x != x and y != y) or (lin and abs(x - y) <= 1e-9 * max(1.0, abs(x), abs(y)))
+                    if not same:
+                        return False, {"why": "bandit %s, record %d, arm %r: reported expectation %r, the public-API replay gives %r" % (name, j, a, x, y),
+                                       "bandit": b, "batch_size": bs}
     return True, {}
 
 # ------------------------------------------------------------------ C19
